@@ -495,6 +495,25 @@ class Interp:
                 ev(name, idx, 'out')
         elif op == 'avail':
             ev(name, idx, 'avail', bool(self.locks[st['i']].available))
+        elif op == 'sampler':
+            # a user-written async generator that owns a lock for as long as it is being iterated; the consumer keeps it
+            # in a variable and works on every sample for a while
+            async def sampler(lock, period):
+                async with lock:
+                    while True:
+                        await (time + period)
+                        yield time.now
+            samples = sampler(self.locks[st['i']], num(st['period']))
+            cnt = 0
+            async for now in samples:
+                ev(name, idx, 'got', now)
+                cnt += 1
+                await instant
+                await (time + num(st['gap']))
+                if cnt >= st['n']:
+                    break
+            await samples.aclose()
+            ev(name, idx, 'ok', cnt)
         # --- streams
         elif op in ('qput', 'cput'):
             s = (self.queues if op == 'qput' else self.channels)[st['s']]
